@@ -346,12 +346,12 @@ func runCheck(prop, tier string, jobFilter string, workers int, seed int64) int 
 			knownHit[l] = true
 		}
 	}
-	os.MkdirAll(filepath.Join(verifDir, "replays"), 0o755)
+	os.MkdirAll(filepath.Join(outDir(), "replays"), 0o755)
 	for _, v := range viols {
 		rf := replayFile{Property: prop, Job: v.r.Job.Name, Pkg: v.r.Job.Pkg, Harness: v.r.Job.Harness, Label: v.ob.Label,
 			Grid: v.r.Job.Grid, Params: v.r.Job.Params, Inputs: modelToStrings(v.ob.Model), Pos: v.ob.Pos}
 		name := fmt.Sprintf("%s-%s-%s.json", prop, v.r.Job.Harness, sanitize(v.r.Job.Name+"-"+v.ob.Label))
-		path := filepath.Join(verifDir, "replays", name)
+		path := filepath.Join(outDir(), "replays", name)
 		b, _ := json.MarshalIndent(rf, "", " ")
 		os.WriteFile(path, b, 0o644)
 		ok, out := nativeReplay(path)
@@ -383,7 +383,7 @@ func runCheck(prop, tier string, jobFilter string, workers int, seed int64) int 
 			}
 			done[r.Job.Harness] = true
 			rf := replayFile{Property: prop, Job: r.Job.Name, Pkg: r.Job.Pkg, Harness: r.Job.Harness, Label: "", Grid: r.Job.Grid, Params: r.Job.Params, Inputs: modelToStrings(r.Witness)}
-			path := filepath.Join(verifDir, "replays", fmt.Sprintf("%s-%s-witness.json", prop, r.Job.Harness))
+			path := filepath.Join(outDir(), "replays", fmt.Sprintf("%s-%s-witness.json", prop, r.Job.Harness))
 			b, _ := json.MarshalIndent(rf, "", " ")
 			os.WriteFile(path, b, 0o644)
 			_, out := nativeReplay(path)
@@ -533,9 +533,9 @@ func writeEvidence(prop, tier string, seed int64, jobs []*Job, results []*JobRes
 		"wall_s":     round2(wall),
 		"violations": violations,
 	}
-	os.MkdirAll(filepath.Join(verifDir, "evidence"), 0o755)
+	os.MkdirAll(filepath.Join(outDir(), "evidence"), 0o755)
 	b, _ := json.MarshalIndent(ev, "", " ")
-	os.WriteFile(filepath.Join(verifDir, "evidence", prop+".json"), b, 0o644)
+	os.WriteFile(filepath.Join(outDir(), "evidence", prop+".json"), b, 0o644)
 }
 
 var gDiffTraces int
@@ -619,7 +619,21 @@ func TestVerifReplay(t *testing.T) {
 	return false, string(out)
 }
 
+// outDir: where evidence and replay files are written (normally the verification
+// directory itself; scratch evaluations of seeded changes redirect it with GOSYM_OUT).
+func outDir() string {
+	if d := os.Getenv("GOSYM_OUT"); d != "" {
+		return d
+	}
+	return verifDir
+}
+
 func main() {
+	if wd, err := os.Getwd(); err == nil {
+		if _, err := os.Stat(filepath.Join(wd, "harness", "rt")); err == nil {
+			verifDir = wd
+		}
+	}
 	if len(os.Args) < 2 {
 		fmt.Println("usage: gosym check -prop Cxx -tier quick|thorough | gosym replay <file>")
 		os.Exit(2)
